@@ -528,6 +528,9 @@ func (w *Wallet) HTLCLockedProofs(
 func (w *Wallet) Receive(token cashu.Token, swapToTrusted bool) (uint64, error) {
 	proofsToSwap := token.Proofs()
 	tokenMint := token.Mint()
+	if len(proofsToSwap) == 0 {
+		return 0, errors.New("token does not have any proofs")
+	}
 
 	keyset, err := w.getActiveKeyset(tokenMint)
 	if err != nil {
@@ -617,6 +620,9 @@ func (w *Wallet) Receive(token cashu.Token, swapToTrusted bool) (uint64, error) 
 func (w *Wallet) ReceiveHTLC(token cashu.Token, preimage string) (uint64, error) {
 	proofs := token.Proofs()
 	tokenMint := token.Mint()
+	if len(proofs) == 0 {
+		return 0, errors.New("token does not have any proofs")
+	}
 
 	keyset, err := w.getActiveKeyset(tokenMint)
 	if err != nil {
